@@ -250,7 +250,7 @@ class C02(RenderProp):
     id = "C02"
     n_quick = 1500
     n_thorough = 25000
-    required_theorems = ["C02_extract", "C02_cap_about_ten_thousand", "C02_while_never_hangs", "C02_while_stops", "C02_while_continues", "C02_if_selects", "C02_if_chain", "C02_each_array_items", "C02_each_object_items", "C02_each_missing", "C02_each_step", "C02_each_empty"]
+    required_theorems = ["C02_extract", "C02_cap_about_ten_thousand", "C02_while_never_hangs", "C02_while_stops", "C02_while_continues", "C02_if_selects", "C02_if_chain", "C02_each_array_items", "C02_each_object_items", "C02_each_missing", "C02_each_step", "C02_each_empty", "C02_loop_skeleton"]
     assumptions = ["the executor model (PugModel.Tpl.Exec) is hand-written; its agreement with tpl_exec.go is validated by the correspondence"]
     rule = ("random control-flow programs: if/else-if/else chains (boolean, numeric, string, null and undefined tests), case with "
             "default in any position, each over data arrays / literal arrays / objects (data maps and literals) / missing and empty "
@@ -355,7 +355,7 @@ class C04(RenderProp):
     n_quick = 3600
     n_thorough = 60000
     required_theorems = ["C04_extract", "C04_matrix", "C04_wrapKind", "C04_escape_table", "C04_escape_safe", "C04_escape_hom", "C04_substitution",
-                         "C04_escape_eq_spec", "C04_print_escaped", "C04_code_escaped_scalar", "C04_render_escaped_end_to_end", "C04_escaped_in_every_position"]
+                         "C04_escape_eq_spec", "C04_print_escaped", "C04_code_escaped_scalar", "C04_render_escaped_end_to_end", "C04_escaped_in_every_position", "C04_escape_skeleton"]
     rule = ("every string-carrying expression shape (variable, member, nested member, index, key index, concatenation both ways, conditional both "
             "branches, || default on undefined and on empty string, &&, function result, method result, join, template literal, array literal) x 7 positions "
             "(bare, between texts, inside tags, in if / each bodies, after unbuffered code, between brace texts) x hostile strings built from the five significant "
@@ -390,7 +390,7 @@ class C05(RenderProp):
     id = "C05"
     n_quick = 3000
     n_thorough = 50000
-    required_theorems = ["C05_trim_only_class", "C05_false_omitted", "C05_value_escaped", "C05_value_no_quote", "C05_true_named", "C05_order_first_occurrence", "C05_last_value_wins", "C05_class_accumulates"]
+    required_theorems = ["C05_trim_only_class", "C05_false_omitted", "C05_value_escaped", "C05_value_no_quote", "C05_true_named", "C05_order_first_occurrence", "C05_last_value_wins", "C05_class_accumulates", "C05_attr_skeleton"]
     rule = ("random attribute lists (0-7 attributes: string literals incl. padded/empty/non-ASCII, hostile data strings, numbers as variable/literal/expression/fraction and "
             "integer literals of up to 16 digits, "
             "booleans/null/undefined as literal and data, class as literal/variable/array/mixed array/empty/hostile and repeated, unescaped literals, concatenations) plus "
@@ -516,7 +516,7 @@ class C11(RenderProp):
     n_quick = 3000
     n_thorough = 45000
     required_theorems = ["C11_member_present", "C11_member_of_nil", "C11_member_of_undefined", "C11_index_out_of_range", "C11_missing_key", "C11_absent_prints_nothing", "C11_absent_propagates",
-                         "C11_undefined_propagates", "C11_absent_path_prints_nothing", "C11_present_path", "C11_present_path_prints_leaf"]
+                         "C11_undefined_propagates", "C11_absent_path_prints_nothing", "C11_present_path", "C11_present_path_prints_leaf", "C11_convert_skeleton"]
     rule = ("random Go data trees (dynamically shaped struct types via reflect.StructOf, a compiled struct type with methods / unexported field / acronym fields, "
             "string-keyed maps, typed maps and slices, pointers incl. nil, interfaces incl. nil, strings, int/int64/uint8/float64/bool; depth <= 3 quick / 5 thorough) x random "
             "paths (lower-camel fields, .key and ['key'], [index], niladic methods), one third deliberately stepping off the data (missing field/key, out-of-range index, nil "
@@ -860,7 +860,7 @@ class C14(Prop):
     id = "C14"
     n_quick = 3000
     n_thorough = 60000
-    required_theorems = ["C14_tokens", "C14_empty_allow", "C14_attr_value_safe", "C14_extract"]
+    required_theorems = ["C14_tokens", "C14_empty_allow", "C14_attr_value_safe", "C14_extract", "C14_strip_skeleton"]
     rule = ("byte strings from a grammar-based HTML mutator (35 element names incl. raw-text, foreign-content and mixed-case ones, 13 attribute names incl. event handlers and a "
             "name with a quote, quoted/unquoted/empty values, entity-encoded and double-encoded markup, NUL, invalid UTF-8, comments, doctype, CDATA, processing instructions, "
             "stray and missing end tags, nesting <= 4 quick / 7 thorough) x allow-lists (empty, absent, 1-5 definitions of ordinary elements with attribute lists, mixed case, "
